@@ -117,7 +117,7 @@ fn cmd_worker(args: &Args) -> i32 {
         out: args.get("out").unwrap_or("/dev/stdout").to_string(),
         known,
         want_hashes: args.get("want-hashes").is_some(),
-        hang_secs: args.num("hang-secs", 60),
+        hang_secs: args.num("hang-secs", 20),
         deadline_secs: args.num("deadline-secs", 0),
     };
     worker(prop.as_ref(), &a)
@@ -134,6 +134,7 @@ fn cmd_gen(args: &Args) -> i32 {
 }
 
 fn spawn_workers(prop_id: &str, seed: u64, from: u64, to: u64, jobs: u64, work: &str, known: &[String], want_hashes: bool, deadline: u64, tag: &str) -> Vec<(std::process::Child, String)> {
+    let hang_secs = std::env::var("SIMCHECK_HANG_SECS").unwrap_or_else(|_| "20".to_string());
     let exe = std::env::current_exe().expect("current_exe");
     let mut children = Vec::new();
     for j in 0..jobs {
@@ -157,6 +158,7 @@ fn spawn_workers(prop_id: &str, seed: u64, from: u64, to: u64, jobs: u64, work: 
             .args(["--stride", &jobs.to_string()])
             .args(["--out", &out])
             .args(["--deadline-secs", &deadline.to_string()])
+            .args(["--hang-secs", &hang_secs])
             .args(["--known", &known.join("\u{1f}")]);
         if want_hashes {
             c.args(["--want-hashes", "1"]);
@@ -281,10 +283,12 @@ fn cmd_run(args: &Args) -> i32 {
             original_ops: h.ops.len(),
             note: "hang: the last operation did not return within the watchdog limit".to_string(),
         };
+        let mut rf = rf;
         replay_path = format!("{}/replays/{}-{}-{}.json", root, id, seed, rf.run);
+        minimise_hang(&mut rf, &format!("{}.cand", replay_path));
         std::fs::write(&replay_path, serde_json::to_string_pretty(&rf).unwrap()).expect("write replay");
         println!("VIOLATION property={} replay={}", id, replay_path);
-        println!("  signature={} step={}", rf.violation.signature, rf.violation.step);
+        println!("  signature={} step={} ops={} (from {})", rf.violation.signature, rf.violation.step, rf.ops.len(), rf.original_ops);
         exit = 1;
     } else if let Some(fv) = first {
         n_viol += 1;
@@ -397,6 +401,57 @@ fn observe_enospc() {
     *OBSERVATIONS.lock().unwrap() = Some(serde_json::json!({"enospc": v}));
 }
 
+/// Minimise a hanging history: candidates run in child processes under a short watchdog.
+fn minimise_hang(rf: &mut ReplayFile, tmp: &str) {
+    let exe = std::env::current_exe().unwrap();
+    let mut budget = 40usize;
+    let mut still_hangs = |cand: &ReplayFile, budget: &mut usize| -> bool {
+        if *budget == 0 {
+            return false;
+        }
+        *budget -= 1;
+        if std::fs::write(tmp, serde_json::to_string(cand).unwrap()).is_err() {
+            return false;
+        }
+        let st = Command::new(&exe).arg("replay").arg(tmp).arg("--quiet").arg("1").env("SIMCHECK_REPLAY_HANG_SECS", "3").stdout(std::process::Stdio::null()).stderr(std::process::Stdio::null()).status();
+        matches!(st.map(|s| s.code()), Ok(Some(1)))
+    };
+    if !still_hangs(rf, &mut budget) {
+        let _ = std::fs::remove_file(tmp);
+        return; // does not reproduce in a fresh process: keep the literal history as recorded
+    }
+    let mut n = 2usize;
+    while rf.ops.len() >= 2 && budget > 0 {
+        let len = rf.ops.len();
+        let chunk = (len + n - 1) / n;
+        let mut reduced = false;
+        let mut start = 0;
+        // the last operation is the one that does not return: never remove it
+        while start < len - 1 {
+            let end = (start + chunk).min(len - 1);
+            let mut cand = rf.clone();
+            cand.ops = rf.ops[..start].iter().chain(rf.ops[end..].iter()).cloned().collect();
+            cand.violation.step = cand.ops.len() - 1;
+            if still_hangs(&cand, &mut budget) {
+                *rf = cand;
+                rf.minimised = true;
+                reduced = true;
+                n = n.saturating_sub(1).max(2);
+                break;
+            }
+            start = end;
+        }
+        if !reduced {
+            if n >= len {
+                break;
+            }
+            n = (n * 2).min(len);
+        }
+    }
+    rf.faults = faults_of(&rf.ops);
+    let _ = std::fs::remove_file(tmp);
+}
+
 fn faults_of(ops: &[Op]) -> Vec<String> {
     ops.iter()
         .enumerate()
@@ -407,7 +462,7 @@ fn faults_of(ops: &[Op]) -> Vec<String> {
             Op::SetModeScanner { mode, .. } => Some(format!("#{} mode override (scanner) {}", i, mode)),
             Op::AdvanceToPeeked { k, .. } => Some(format!("#{} skip ahead to peeked match {}", i, k)),
             Op::DropIter { .. } => Some(format!("#{} abandon iterator", i)),
-            Op::BreakFolder { kind } => Some(format!("#{} folder fault {:?}", i, kind)),
+            Op::BreakFolder { kind, victim } => Some(format!("#{} folder fault {:?} (victim file index {})", i, kind, victim)),
             Op::HealFolder => Some(format!("#{} heal folder", i)),
             _ => None,
         })
@@ -516,7 +571,8 @@ fn cmd_replay(args: &Args) -> i32 {
     let pid = rf.property.clone();
     let path2 = path.clone();
     std::thread::spawn(move || {
-        std::thread::sleep(std::time::Duration::from_secs(if expect_hang { 20 } else { 120 }));
+        let hs: u64 = std::env::var("SIMCHECK_REPLAY_HANG_SECS").ok().and_then(|x| x.parse().ok()).unwrap_or(20);
+        std::thread::sleep(std::time::Duration::from_secs(if expect_hang { hs } else { 120 }));
         if expect_hang {
             println!("VIOLATION property={} replay={}", pid, path2);
             println!("  reproduced: signature={} (operation did not return)", sig);
